@@ -248,6 +248,63 @@ def run_ob(ob, workdir, keep=False):
 
 
 # ---------------------------------------------------------------------------------------------
+def repo_digest():
+    h = hashlib.sha256()
+    for root in ('include/ipr', 'src'):
+        for dp, dn, fn in sorted(os.walk(os.path.join(REPO, root))):
+            for f in sorted(fn):
+                h.update(f.encode()); h.update(open(os.path.join(dp, f), 'rb').read())
+    return h.hexdigest()[:16]
+
+
+def native_replay(family, args, extra_src=()):
+    """build replay/replay.cxx against /repo's working tree (cached by source digest) and run one family.
+    returns (reproduced: bool or None, text)"""
+    rdir = os.path.join(BUILD, 'replay')
+    os.makedirs(rdir, exist_ok=True)
+    src = os.path.join(VERIF, 'replay', 'replay.cxx')
+    h = hashlib.sha256((repo_digest() + open(src).read()).encode()).hexdigest()[:16]
+    exe = os.path.join(rdir, 'replay-' + h)
+    if not os.path.exists(exe):
+        for old in os.listdir(rdir):
+            os.remove(os.path.join(rdir, old))
+        srcs = [os.path.join(REPO, 'src', f) for f in ('impl.cxx', 'interface.cxx', 'io.cxx', 'traversal.cxx', 'utility.cxx')]
+        objs = []
+        def cc(f):
+            o = os.path.join(rdir, os.path.basename(f) + '.o')
+            rc, out, err, _ = sh(['g++', '-std=c++20', '-O1', '-g', '-I' + REPO + '/include', '-I' + REPO + '/src', '-I' + os.path.join(VERIF, 'replay'), '-c', f, '-o', o], timeout=600, mem=False)
+            if rc != 0:
+                raise Undecided('native replay build failed: ' + err[-2000:])
+            return o
+        with concurrent.futures.ThreadPoolExecutor(max_workers=6) as ex:
+            objs = list(ex.map(cc, srcs + [src]))
+        rc, out, err, _ = sh(['g++', '-o', exe] + objs, timeout=300, mem=False)
+        if rc != 0:
+            raise Undecided('native replay link failed: ' + err[-2000:])
+        for o in objs:
+            os.remove(o)
+    rc, out, err, _ = sh([exe, family] + ['%s=%s' % kv for kv in args.items()], timeout=120, mem=False)
+    text = (out + err)[-4000:]
+    if rc == 1:
+        return True, text
+    if rc == 0:
+        return False, text
+    if rc < 0 or rc >= 128:
+        return True, 'native run crashed (rc=%d)\n' % rc + text
+    return None, 'replay rc=%d\n' % rc + text
+
+
+def generic_replay(pid, path):
+    r = json.load(open(path))
+    print(json.dumps({k: r[k] for k in ('property', 'obligation', 'clause', 'reproduced_on_real_code')}, indent=1))
+    if r.get('native_family'):
+        ok, text = native_replay(r['native_family'], r.get('native_args', {}))
+        print(text)
+        return 1 if ok else 0
+    print('no native replay for this obligation; cbmc output: %s' % r.get('cbmc_output'))
+    return 1
+
+
 def load_known_findings():
     """known_findings.txt lines:  finding: property=<id> obligation=<ob id> match=<regex on failed description> <text>
                                   fixed: property=<id> <commit> <text>   (suppresses nothing)"""
@@ -314,9 +371,14 @@ def run_property(pid, tier, obs, units, seed, level='proof', assumptions=(), tru
                 replay = dict(property=pid, obligation=r['id'], clause=r['clause'], kind=r['kind'], unit=r['unit'], checker_cmd=r.get('cmd'),
                               failed=rest, cbmc_output=os.path.join(r['dir'], 'cbmc.json'), native=None)
                 confirmed = None
-                if replayers and ob.replay and ob.replay in replayers:
+                if ob.replay:
                     try:
-                        confirmed, native = replayers[ob.replay](ob, r, rest)
+                        if replayers and ob.replay in replayers:
+                            fam, args = replayers[ob.replay](ob, r, rest)
+                        else:
+                            fam, args = ob.replay, {}
+                        replay['native_family'], replay['native_args'] = fam, args
+                        confirmed, native = native_replay(fam, args)
                         replay['native'] = native
                     except Exception as e:  # replay machinery problem: keep the violation, say so
                         replay['native'] = 'replay failed to run: %s' % e
